@@ -10,6 +10,11 @@ NOTE = ('decides the structural necessary conditions named in the rules (DESIGN 
 
 CHECKS = {
     # id: (design_ref, clauses text, technique)
+    'C01': ('§3 C01', 'R01a persist-before-mutate of term/vote, R01b the vote grant has must-pass tests consulting stored vote, terms '
+            'and both logs\' last term/index, R01c commit guard (current-term test must-pass; value from match_index and quorum), '
+            'R01d every term-carrying handler steps down on a higher term, R01e acknowledged match_index and follower commit bound '
+            'slice from prev_log_index',
+            'MIR cut-reachability, must-pass switch edges, backward data slices, sibling cross-check'),
     'C10': ('§3 C10', 'R01a persist-before-mutate of term/vote (cut-reachability over Ok-edges of the persist call, all write sites '
             'in the workspace), R10a every log growth site reaches success only through a successful persist, R10c recovery '
             'table covers every record the node writes and keeps the first vote of a term, R02b tail repair on reopen, R02e replay '
